@@ -92,20 +92,21 @@ func (c *c03) Cases(tier string, seed int64) []core.Case {
 
 // p2Scenario is a built scenario ready for Verify/Repair.
 type p2Scenario struct {
-	env           *p2env
-	g             int
-	ops           []scen.Op
-	volsLost      int
-	volsTotal     int
-	wit           map[scen.SliceRef]bool
-	findable      map[scen.SliceRef]bool
-	skip          map[scen.SliceRef]bool
-	exps          []int
-	total         int
-	corruptVolume string
-	identical     []bool
-	nIdentical    int
-	identSlices   int
+	env              *p2env
+	g                int
+	ops              []scen.Op
+	volsLost         int
+	volsTotal        int
+	wit              map[scen.SliceRef]bool
+	findable         map[scen.SliceRef]bool
+	skip             map[scen.SliceRef]bool
+	exps             []int
+	total            int
+	corruptVolume    string
+	symlinkedVolumes int
+	identical        []bool
+	nIdentical       int
+	identSlices      int
 }
 
 func fixedSet(name string) (scen.Set, func(*scen.State, *rand.Rand) []scen.Op, string) {
@@ -313,6 +314,18 @@ func buildP2Scenario(r *core.R, p p2ScenParams) *p2Scenario {
 			}
 		}
 	}
+	// Some surviving recovery files are reached through symbolic links.
+	if p.Kind != "fixed" && rng.Intn(6) == 0 {
+		for i, v := range env.volumeFiles() {
+			if rng.Intn(2) == 0 {
+				real := filepath.Join(env.root, fmt.Sprintf("moved-vol-%d", i))
+				if os.Rename(v, real) == nil {
+					os.Symlink(real, v)
+					sc.symlinkedVolumes++
+				}
+			}
+		}
+	}
 	sc.wit = st.Witnessed()
 	sc.findable, sc.skip = st.Find()
 	sc.exps = env.availableExponents()
@@ -381,6 +394,9 @@ func (sc *p2Scenario) describe() map[string]interface{} {
 	m["goroutines"] = sc.g
 	if sc.corruptVolume != "" {
 		m["corrupt_volume"] = sc.corruptVolume
+	}
+	if sc.symlinkedVolumes > 0 {
+		m["symlinked_volumes"] = sc.symlinkedVolumes
 	}
 	return m
 }
